@@ -439,7 +439,23 @@ impl Session {
             .await;
 
         let peer = self.peers.get_mut(addr).ok_or(Error::PeerNotFound)?;
+        let reserved = match peer.piece_index {
+            Some(piece_index) => matches!(self.pieces_status[piece_index], Status::Reserved(_)),
+            None => false,
+        };
         peer.handle_choke(&mut self.pieces_status);
+
+        // Nobody fetches the piece any more, peers that have nothing to do can ask for it
+        let piece_released = match peer.piece_index {
+            Some(piece_index) => reserved && self.pieces_status[piece_index] == Status::Missing,
+            None => false,
+        };
+        if piece_released {
+            let _ = self
+                .general_channels
+                .broad
+                .send(BroadCmd::PieceReleased);
+        }
         #[cfg(rdest_verif)]
         self.verif_emit("RecvChoke", addr, "");
         Ok(true)
@@ -861,12 +877,14 @@ impl Session {
     }
 
     async fn kill_peer(&mut self, addr: &String) {
+        let mut piece_released = false;
         match self.peers.get_mut(addr) {
             Some(peer) => {
                 // Reset piece status
                 if let Some(piece_index) = peer.piece_index {
                     if self.pieces_status[piece_index] != Status::Have {
-                        self.pieces_status[piece_index] = Status::Missing
+                        self.pieces_status[piece_index] = Status::Missing;
+                        piece_released = true;
                     }
                 }
 
@@ -880,6 +898,14 @@ impl Session {
 
         // Remove peer data from map
         self.peers.remove(addr);
+
+        // Piece can be fetched from another peer now, also from one that had nothing to do so far
+        if piece_released {
+            let _ = self
+                .general_channels
+                .broad
+                .send(BroadCmd::PieceReleased);
+        }
     }
 
     async fn kill_tracker(&mut self) {
